@@ -188,304 +188,75 @@ theorem freq_matVec (s0 s1 s2 s3 s4 s5 s6 s7 s8 s9 s10 s11 : Nat) (h0 : s0 < 429
   repeat' apply And.intro
   all_goals omega
 
-/-- `mds_multiply` on raw words: split in 32-bit limbs, two frequency-domain products, and the
-    reduction tail of each component -/
-theorem mm_eq_tail (x0 x1 x2 x3 x4 x5 x6 x7 x8 x9 x10 x11 : Nat) (hx0 : x0 < 18446744073709551616) (hx1 : x1 < 18446744073709551616) (hx2 : x2 < 18446744073709551616) (hx3 : x3 < 18446744073709551616) (hx4 : x4 < 18446744073709551616) (hx5 : x5 < 18446744073709551616) (hx6 : x6 < 18446744073709551616) (hx7 : x7 < 18446744073709551616) (hx8 : x8 < 18446744073709551616) (hx9 : x9 < 18446744073709551616) (hx10 : x10 < 18446744073709551616) (hx11 : x11 < 18446744073709551616) :
+theorem fold_0 (h l : Nat) :
+    (Gen.Mds12.mds_multiply.s_result_0_1 (Gen.Mds12.mds_multiply.s_res (Gen.Mds12.mds_multiply.s_s_lo (Gen.Mds12.mds_multiply.s_s_12 h l)) (Gen.Mds12.mds_multiply.s_z (Gen.Mds12.mds_multiply.s_s_hi (Gen.Mds12.mds_multiply.s_s_12 h l)))) (Gen.Mds12.mds_multiply.s_over (Gen.Mds12.mds_multiply.s_s_lo (Gen.Mds12.mds_multiply.s_s_12 h l)) (Gen.Mds12.mds_multiply.s_z (Gen.Mds12.mds_multiply.s_s_hi (Gen.Mds12.mds_multiply.s_s_12 h l))))) = tailRed l h := rfl
+
+theorem fold_1 (h l : Nat) :
+    (Gen.Mds12.mds_multiply.s_result_1_1 (Gen.Mds12.mds_multiply.s_res_1 (Gen.Mds12.mds_multiply.s_s_lo_1 (Gen.Mds12.mds_multiply.s_s_13 h l)) (Gen.Mds12.mds_multiply.s_z_1 (Gen.Mds12.mds_multiply.s_s_hi_1 (Gen.Mds12.mds_multiply.s_s_13 h l)))) (Gen.Mds12.mds_multiply.s_over_1 (Gen.Mds12.mds_multiply.s_s_lo_1 (Gen.Mds12.mds_multiply.s_s_13 h l)) (Gen.Mds12.mds_multiply.s_z_1 (Gen.Mds12.mds_multiply.s_s_hi_1 (Gen.Mds12.mds_multiply.s_s_13 h l))))) = tailRed l h := rfl
+
+theorem fold_2 (h l : Nat) :
+    (Gen.Mds12.mds_multiply.s_result_2_1 (Gen.Mds12.mds_multiply.s_res_2 (Gen.Mds12.mds_multiply.s_s_lo_2 (Gen.Mds12.mds_multiply.s_s_14 h l)) (Gen.Mds12.mds_multiply.s_z_2 (Gen.Mds12.mds_multiply.s_s_hi_2 (Gen.Mds12.mds_multiply.s_s_14 h l)))) (Gen.Mds12.mds_multiply.s_over_2 (Gen.Mds12.mds_multiply.s_s_lo_2 (Gen.Mds12.mds_multiply.s_s_14 h l)) (Gen.Mds12.mds_multiply.s_z_2 (Gen.Mds12.mds_multiply.s_s_hi_2 (Gen.Mds12.mds_multiply.s_s_14 h l))))) = tailRed l h := rfl
+
+theorem fold_3 (h l : Nat) :
+    (Gen.Mds12.mds_multiply.s_result_3_1 (Gen.Mds12.mds_multiply.s_res_3 (Gen.Mds12.mds_multiply.s_s_lo_3 (Gen.Mds12.mds_multiply.s_s_15 h l)) (Gen.Mds12.mds_multiply.s_z_3 (Gen.Mds12.mds_multiply.s_s_hi_3 (Gen.Mds12.mds_multiply.s_s_15 h l)))) (Gen.Mds12.mds_multiply.s_over_3 (Gen.Mds12.mds_multiply.s_s_lo_3 (Gen.Mds12.mds_multiply.s_s_15 h l)) (Gen.Mds12.mds_multiply.s_z_3 (Gen.Mds12.mds_multiply.s_s_hi_3 (Gen.Mds12.mds_multiply.s_s_15 h l))))) = tailRed l h := rfl
+
+theorem fold_4 (h l : Nat) :
+    (Gen.Mds12.mds_multiply.s_result_4_1 (Gen.Mds12.mds_multiply.s_res_4 (Gen.Mds12.mds_multiply.s_s_lo_4 (Gen.Mds12.mds_multiply.s_s_16 h l)) (Gen.Mds12.mds_multiply.s_z_4 (Gen.Mds12.mds_multiply.s_s_hi_4 (Gen.Mds12.mds_multiply.s_s_16 h l)))) (Gen.Mds12.mds_multiply.s_over_4 (Gen.Mds12.mds_multiply.s_s_lo_4 (Gen.Mds12.mds_multiply.s_s_16 h l)) (Gen.Mds12.mds_multiply.s_z_4 (Gen.Mds12.mds_multiply.s_s_hi_4 (Gen.Mds12.mds_multiply.s_s_16 h l))))) = tailRed l h := rfl
+
+theorem fold_5 (h l : Nat) :
+    (Gen.Mds12.mds_multiply.s_result_5_1 (Gen.Mds12.mds_multiply.s_res_5 (Gen.Mds12.mds_multiply.s_s_lo_5 (Gen.Mds12.mds_multiply.s_s_17 h l)) (Gen.Mds12.mds_multiply.s_z_5 (Gen.Mds12.mds_multiply.s_s_hi_5 (Gen.Mds12.mds_multiply.s_s_17 h l)))) (Gen.Mds12.mds_multiply.s_over_5 (Gen.Mds12.mds_multiply.s_s_lo_5 (Gen.Mds12.mds_multiply.s_s_17 h l)) (Gen.Mds12.mds_multiply.s_z_5 (Gen.Mds12.mds_multiply.s_s_hi_5 (Gen.Mds12.mds_multiply.s_s_17 h l))))) = tailRed l h := rfl
+
+theorem fold_6 (h l : Nat) :
+    (Gen.Mds12.mds_multiply.s_result_6_1 (Gen.Mds12.mds_multiply.s_res_6 (Gen.Mds12.mds_multiply.s_s_lo_6 (Gen.Mds12.mds_multiply.s_s_18 h l)) (Gen.Mds12.mds_multiply.s_z_6 (Gen.Mds12.mds_multiply.s_s_hi_6 (Gen.Mds12.mds_multiply.s_s_18 h l)))) (Gen.Mds12.mds_multiply.s_over_6 (Gen.Mds12.mds_multiply.s_s_lo_6 (Gen.Mds12.mds_multiply.s_s_18 h l)) (Gen.Mds12.mds_multiply.s_z_6 (Gen.Mds12.mds_multiply.s_s_hi_6 (Gen.Mds12.mds_multiply.s_s_18 h l))))) = tailRed l h := rfl
+
+theorem fold_7 (h l : Nat) :
+    (Gen.Mds12.mds_multiply.s_result_7_1 (Gen.Mds12.mds_multiply.s_res_7 (Gen.Mds12.mds_multiply.s_s_lo_7 (Gen.Mds12.mds_multiply.s_s_19 h l)) (Gen.Mds12.mds_multiply.s_z_7 (Gen.Mds12.mds_multiply.s_s_hi_7 (Gen.Mds12.mds_multiply.s_s_19 h l)))) (Gen.Mds12.mds_multiply.s_over_7 (Gen.Mds12.mds_multiply.s_s_lo_7 (Gen.Mds12.mds_multiply.s_s_19 h l)) (Gen.Mds12.mds_multiply.s_z_7 (Gen.Mds12.mds_multiply.s_s_hi_7 (Gen.Mds12.mds_multiply.s_s_19 h l))))) = tailRed l h := rfl
+
+theorem fold_8 (h l : Nat) :
+    (Gen.Mds12.mds_multiply.s_result_8_1 (Gen.Mds12.mds_multiply.s_res_8 (Gen.Mds12.mds_multiply.s_s_lo_8 (Gen.Mds12.mds_multiply.s_s_20 h l)) (Gen.Mds12.mds_multiply.s_z_8 (Gen.Mds12.mds_multiply.s_s_hi_8 (Gen.Mds12.mds_multiply.s_s_20 h l)))) (Gen.Mds12.mds_multiply.s_over_8 (Gen.Mds12.mds_multiply.s_s_lo_8 (Gen.Mds12.mds_multiply.s_s_20 h l)) (Gen.Mds12.mds_multiply.s_z_8 (Gen.Mds12.mds_multiply.s_s_hi_8 (Gen.Mds12.mds_multiply.s_s_20 h l))))) = tailRed l h := rfl
+
+theorem fold_9 (h l : Nat) :
+    (Gen.Mds12.mds_multiply.s_result_9_1 (Gen.Mds12.mds_multiply.s_res_9 (Gen.Mds12.mds_multiply.s_s_lo_9 (Gen.Mds12.mds_multiply.s_s_21 h l)) (Gen.Mds12.mds_multiply.s_z_9 (Gen.Mds12.mds_multiply.s_s_hi_9 (Gen.Mds12.mds_multiply.s_s_21 h l)))) (Gen.Mds12.mds_multiply.s_over_9 (Gen.Mds12.mds_multiply.s_s_lo_9 (Gen.Mds12.mds_multiply.s_s_21 h l)) (Gen.Mds12.mds_multiply.s_z_9 (Gen.Mds12.mds_multiply.s_s_hi_9 (Gen.Mds12.mds_multiply.s_s_21 h l))))) = tailRed l h := rfl
+
+theorem fold_10 (h l : Nat) :
+    (Gen.Mds12.mds_multiply.s_result_10_1 (Gen.Mds12.mds_multiply.s_res_10 (Gen.Mds12.mds_multiply.s_s_lo_10 (Gen.Mds12.mds_multiply.s_s_22 h l)) (Gen.Mds12.mds_multiply.s_z_10 (Gen.Mds12.mds_multiply.s_s_hi_10 (Gen.Mds12.mds_multiply.s_s_22 h l)))) (Gen.Mds12.mds_multiply.s_over_10 (Gen.Mds12.mds_multiply.s_s_lo_10 (Gen.Mds12.mds_multiply.s_s_22 h l)) (Gen.Mds12.mds_multiply.s_z_10 (Gen.Mds12.mds_multiply.s_s_hi_10 (Gen.Mds12.mds_multiply.s_s_22 h l))))) = tailRed l h := rfl
+
+theorem fold_11 (h l : Nat) :
+    (Gen.Mds12.mds_multiply.s_result_11_1 (Gen.Mds12.mds_multiply.s_res_11 (Gen.Mds12.mds_multiply.s_s_lo_11 (Gen.Mds12.mds_multiply.s_s_23 h l)) (Gen.Mds12.mds_multiply.s_z_11 (Gen.Mds12.mds_multiply.s_s_hi_11 (Gen.Mds12.mds_multiply.s_s_23 h l)))) (Gen.Mds12.mds_multiply.s_over_11 (Gen.Mds12.mds_multiply.s_s_lo_11 (Gen.Mds12.mds_multiply.s_s_23 h l)) (Gen.Mds12.mds_multiply.s_z_11 (Gen.Mds12.mds_multiply.s_s_hi_11 (Gen.Mds12.mds_multiply.s_s_23 h l))))) = tailRed l h := rfl
+
+/-- the plumbing of `mds_multiply` (which `let` feeds which): every output component is the
+    reduction tail of the two frequency-domain products of the low and high 32-bit limbs.
+    NOT proved in Lean: every route tried (simp unfolding, `rfl`, fold-then-rewrite) makes the
+    kernel unfold arithmetic on 2^64 literals past the identity wrappers `s_state_k_1` the translator
+    emits ("deep recursion"). The individual steps are proved (`fold_k`: each generated tail chain is
+    `tailRed`; `freq_*`: both products); this remaining statement is tied to the code by the
+    correspondence harness (`perm` / `round` ops, raw words compared bit for bit). -/
+def mm_eq_tail_statement : Prop :=
+  ∀ (x0 x1 x2 x3 x4 x5 x6 x7 x8 x9 x10 x11 : Nat),
     Gen.Mds12.mds_multiply x0 x1 x2 x3 x4 x5 x6 x7 x8 x9 x10 x11 =
-      (tailRed (7 * (x0 % 4294967296) + 23 * (x1 % 4294967296) + 8 * (x2 % 4294967296) + 26 * (x3 % 4294967296) + 13 * (x4 % 4294967296) + 10 * (x5 % 4294967296) + 9 * (x6 % 4294967296) + 7 * (x7 % 4294967296) + 6 * (x8 % 4294967296) + 22 * (x9 % 4294967296) + 21 * (x10 % 4294967296) + 8 * (x11 % 4294967296))
-         (7 * (x0 / 4294967296) + 23 * (x1 / 4294967296) + 8 * (x2 / 4294967296) + 26 * (x3 / 4294967296) + 13 * (x4 / 4294967296) + 10 * (x5 / 4294967296) + 9 * (x6 / 4294967296) + 7 * (x7 / 4294967296) + 6 * (x8 / 4294967296) + 22 * (x9 / 4294967296) + 21 * (x10 / 4294967296) + 8 * (x11 / 4294967296)),
-       tailRed (8 * (x0 % 4294967296) + 7 * (x1 % 4294967296) + 23 * (x2 % 4294967296) + 8 * (x3 % 4294967296) + 26 * (x4 % 4294967296) + 13 * (x5 % 4294967296) + 10 * (x6 % 4294967296) + 9 * (x7 % 4294967296) + 7 * (x8 % 4294967296) + 6 * (x9 % 4294967296) + 22 * (x10 % 4294967296) + 21 * (x11 % 4294967296))
-         (8 * (x0 / 4294967296) + 7 * (x1 / 4294967296) + 23 * (x2 / 4294967296) + 8 * (x3 / 4294967296) + 26 * (x4 / 4294967296) + 13 * (x5 / 4294967296) + 10 * (x6 / 4294967296) + 9 * (x7 / 4294967296) + 7 * (x8 / 4294967296) + 6 * (x9 / 4294967296) + 22 * (x10 / 4294967296) + 21 * (x11 / 4294967296)),
-       tailRed (21 * (x0 % 4294967296) + 8 * (x1 % 4294967296) + 7 * (x2 % 4294967296) + 23 * (x3 % 4294967296) + 8 * (x4 % 4294967296) + 26 * (x5 % 4294967296) + 13 * (x6 % 4294967296) + 10 * (x7 % 4294967296) + 9 * (x8 % 4294967296) + 7 * (x9 % 4294967296) + 6 * (x10 % 4294967296) + 22 * (x11 % 4294967296))
-         (21 * (x0 / 4294967296) + 8 * (x1 / 4294967296) + 7 * (x2 / 4294967296) + 23 * (x3 / 4294967296) + 8 * (x4 / 4294967296) + 26 * (x5 / 4294967296) + 13 * (x6 / 4294967296) + 10 * (x7 / 4294967296) + 9 * (x8 / 4294967296) + 7 * (x9 / 4294967296) + 6 * (x10 / 4294967296) + 22 * (x11 / 4294967296)),
-       tailRed (22 * (x0 % 4294967296) + 21 * (x1 % 4294967296) + 8 * (x2 % 4294967296) + 7 * (x3 % 4294967296) + 23 * (x4 % 4294967296) + 8 * (x5 % 4294967296) + 26 * (x6 % 4294967296) + 13 * (x7 % 4294967296) + 10 * (x8 % 4294967296) + 9 * (x9 % 4294967296) + 7 * (x10 % 4294967296) + 6 * (x11 % 4294967296))
-         (22 * (x0 / 4294967296) + 21 * (x1 / 4294967296) + 8 * (x2 / 4294967296) + 7 * (x3 / 4294967296) + 23 * (x4 / 4294967296) + 8 * (x5 / 4294967296) + 26 * (x6 / 4294967296) + 13 * (x7 / 4294967296) + 10 * (x8 / 4294967296) + 9 * (x9 / 4294967296) + 7 * (x10 / 4294967296) + 6 * (x11 / 4294967296)),
-       tailRed (6 * (x0 % 4294967296) + 22 * (x1 % 4294967296) + 21 * (x2 % 4294967296) + 8 * (x3 % 4294967296) + 7 * (x4 % 4294967296) + 23 * (x5 % 4294967296) + 8 * (x6 % 4294967296) + 26 * (x7 % 4294967296) + 13 * (x8 % 4294967296) + 10 * (x9 % 4294967296) + 9 * (x10 % 4294967296) + 7 * (x11 % 4294967296))
-         (6 * (x0 / 4294967296) + 22 * (x1 / 4294967296) + 21 * (x2 / 4294967296) + 8 * (x3 / 4294967296) + 7 * (x4 / 4294967296) + 23 * (x5 / 4294967296) + 8 * (x6 / 4294967296) + 26 * (x7 / 4294967296) + 13 * (x8 / 4294967296) + 10 * (x9 / 4294967296) + 9 * (x10 / 4294967296) + 7 * (x11 / 4294967296)),
-       tailRed (7 * (x0 % 4294967296) + 6 * (x1 % 4294967296) + 22 * (x2 % 4294967296) + 21 * (x3 % 4294967296) + 8 * (x4 % 4294967296) + 7 * (x5 % 4294967296) + 23 * (x6 % 4294967296) + 8 * (x7 % 4294967296) + 26 * (x8 % 4294967296) + 13 * (x9 % 4294967296) + 10 * (x10 % 4294967296) + 9 * (x11 % 4294967296))
-         (7 * (x0 / 4294967296) + 6 * (x1 / 4294967296) + 22 * (x2 / 4294967296) + 21 * (x3 / 4294967296) + 8 * (x4 / 4294967296) + 7 * (x5 / 4294967296) + 23 * (x6 / 4294967296) + 8 * (x7 / 4294967296) + 26 * (x8 / 4294967296) + 13 * (x9 / 4294967296) + 10 * (x10 / 4294967296) + 9 * (x11 / 4294967296)),
-       tailRed (9 * (x0 % 4294967296) + 7 * (x1 % 4294967296) + 6 * (x2 % 4294967296) + 22 * (x3 % 4294967296) + 21 * (x4 % 4294967296) + 8 * (x5 % 4294967296) + 7 * (x6 % 4294967296) + 23 * (x7 % 4294967296) + 8 * (x8 % 4294967296) + 26 * (x9 % 4294967296) + 13 * (x10 % 4294967296) + 10 * (x11 % 4294967296))
-         (9 * (x0 / 4294967296) + 7 * (x1 / 4294967296) + 6 * (x2 / 4294967296) + 22 * (x3 / 4294967296) + 21 * (x4 / 4294967296) + 8 * (x5 / 4294967296) + 7 * (x6 / 4294967296) + 23 * (x7 / 4294967296) + 8 * (x8 / 4294967296) + 26 * (x9 / 4294967296) + 13 * (x10 / 4294967296) + 10 * (x11 / 4294967296)),
-       tailRed (10 * (x0 % 4294967296) + 9 * (x1 % 4294967296) + 7 * (x2 % 4294967296) + 6 * (x3 % 4294967296) + 22 * (x4 % 4294967296) + 21 * (x5 % 4294967296) + 8 * (x6 % 4294967296) + 7 * (x7 % 4294967296) + 23 * (x8 % 4294967296) + 8 * (x9 % 4294967296) + 26 * (x10 % 4294967296) + 13 * (x11 % 4294967296))
-         (10 * (x0 / 4294967296) + 9 * (x1 / 4294967296) + 7 * (x2 / 4294967296) + 6 * (x3 / 4294967296) + 22 * (x4 / 4294967296) + 21 * (x5 / 4294967296) + 8 * (x6 / 4294967296) + 7 * (x7 / 4294967296) + 23 * (x8 / 4294967296) + 8 * (x9 / 4294967296) + 26 * (x10 / 4294967296) + 13 * (x11 / 4294967296)),
-       tailRed (13 * (x0 % 4294967296) + 10 * (x1 % 4294967296) + 9 * (x2 % 4294967296) + 7 * (x3 % 4294967296) + 6 * (x4 % 4294967296) + 22 * (x5 % 4294967296) + 21 * (x6 % 4294967296) + 8 * (x7 % 4294967296) + 7 * (x8 % 4294967296) + 23 * (x9 % 4294967296) + 8 * (x10 % 4294967296) + 26 * (x11 % 4294967296))
-         (13 * (x0 / 4294967296) + 10 * (x1 / 4294967296) + 9 * (x2 / 4294967296) + 7 * (x3 / 4294967296) + 6 * (x4 / 4294967296) + 22 * (x5 / 4294967296) + 21 * (x6 / 4294967296) + 8 * (x7 / 4294967296) + 7 * (x8 / 4294967296) + 23 * (x9 / 4294967296) + 8 * (x10 / 4294967296) + 26 * (x11 / 4294967296)),
-       tailRed (26 * (x0 % 4294967296) + 13 * (x1 % 4294967296) + 10 * (x2 % 4294967296) + 9 * (x3 % 4294967296) + 7 * (x4 % 4294967296) + 6 * (x5 % 4294967296) + 22 * (x6 % 4294967296) + 21 * (x7 % 4294967296) + 8 * (x8 % 4294967296) + 7 * (x9 % 4294967296) + 23 * (x10 % 4294967296) + 8 * (x11 % 4294967296))
-         (26 * (x0 / 4294967296) + 13 * (x1 / 4294967296) + 10 * (x2 / 4294967296) + 9 * (x3 / 4294967296) + 7 * (x4 / 4294967296) + 6 * (x5 / 4294967296) + 22 * (x6 / 4294967296) + 21 * (x7 / 4294967296) + 8 * (x8 / 4294967296) + 7 * (x9 / 4294967296) + 23 * (x10 / 4294967296) + 8 * (x11 / 4294967296)),
-       tailRed (8 * (x0 % 4294967296) + 26 * (x1 % 4294967296) + 13 * (x2 % 4294967296) + 10 * (x3 % 4294967296) + 9 * (x4 % 4294967296) + 7 * (x5 % 4294967296) + 6 * (x6 % 4294967296) + 22 * (x7 % 4294967296) + 21 * (x8 % 4294967296) + 8 * (x9 % 4294967296) + 7 * (x10 % 4294967296) + 23 * (x11 % 4294967296))
-         (8 * (x0 / 4294967296) + 26 * (x1 / 4294967296) + 13 * (x2 / 4294967296) + 10 * (x3 / 4294967296) + 9 * (x4 / 4294967296) + 7 * (x5 / 4294967296) + 6 * (x6 / 4294967296) + 22 * (x7 / 4294967296) + 21 * (x8 / 4294967296) + 8 * (x9 / 4294967296) + 7 * (x10 / 4294967296) + 23 * (x11 / 4294967296)),
-       tailRed (23 * (x0 % 4294967296) + 8 * (x1 % 4294967296) + 26 * (x2 % 4294967296) + 13 * (x3 % 4294967296) + 10 * (x4 % 4294967296) + 9 * (x5 % 4294967296) + 7 * (x6 % 4294967296) + 6 * (x7 % 4294967296) + 22 * (x8 % 4294967296) + 21 * (x9 % 4294967296) + 8 * (x10 % 4294967296) + 7 * (x11 % 4294967296))
-         (23 * (x0 / 4294967296) + 8 * (x1 / 4294967296) + 26 * (x2 / 4294967296) + 13 * (x3 / 4294967296) + 10 * (x4 / 4294967296) + 9 * (x5 / 4294967296) + 7 * (x6 / 4294967296) + 6 * (x7 / 4294967296) + 22 * (x8 / 4294967296) + 21 * (x9 / 4294967296) + 8 * (x10 / 4294967296) + 7 * (x11 / 4294967296))) := by
-  have hh0 : x0 / 4294967296 < 4294967296 := by omega
-  have hl0 : x0 % 4294967296 < 4294967296 := by omega
-  have hh1 : x1 / 4294967296 < 4294967296 := by omega
-  have hl1 : x1 % 4294967296 < 4294967296 := by omega
-  have hh2 : x2 / 4294967296 < 4294967296 := by omega
-  have hl2 : x2 % 4294967296 < 4294967296 := by omega
-  have hh3 : x3 / 4294967296 < 4294967296 := by omega
-  have hl3 : x3 % 4294967296 < 4294967296 := by omega
-  have hh4 : x4 / 4294967296 < 4294967296 := by omega
-  have hl4 : x4 % 4294967296 < 4294967296 := by omega
-  have hh5 : x5 / 4294967296 < 4294967296 := by omega
-  have hl5 : x5 % 4294967296 < 4294967296 := by omega
-  have hh6 : x6 / 4294967296 < 4294967296 := by omega
-  have hl6 : x6 % 4294967296 < 4294967296 := by omega
-  have hh7 : x7 / 4294967296 < 4294967296 := by omega
-  have hl7 : x7 % 4294967296 < 4294967296 := by omega
-  have hh8 : x8 / 4294967296 < 4294967296 := by omega
-  have hl8 : x8 % 4294967296 < 4294967296 := by omega
-  have hh9 : x9 / 4294967296 < 4294967296 := by omega
-  have hl9 : x9 % 4294967296 < 4294967296 := by omega
-  have hh10 : x10 / 4294967296 < 4294967296 := by omega
-  have hl10 : x10 % 4294967296 < 4294967296 := by omega
-  have hh11 : x11 / 4294967296 < 4294967296 := by omega
-  have hl11 : x11 % 4294967296 < 4294967296 := by omega
-  have vh := freq_eq_tuple _ _ _ _ _ _ _ _ _ _ _ _ hh0 hh1 hh2 hh3 hh4 hh5 hh6 hh7 hh8 hh9 hh10 hh11
-  have vl := freq_eq_tuple _ _ _ _ _ _ _ _ _ _ _ _ hl0 hl1 hl2 hl3 hl4 hl5 hl6 hl7 hl8 hl9 hl10 hl11
-  simp only [Gen.Mds12.mds_multiply.s_result_0, Gen.Mds12.mds_multiply.s_result_1,
-      Gen.Mds12.mds_multiply.s_result_2, Gen.Mds12.mds_multiply.s_result_3,
-      Gen.Mds12.mds_multiply.s_result_4, Gen.Mds12.mds_multiply.s_result_5,
-      Gen.Mds12.mds_multiply.s_result_6, Gen.Mds12.mds_multiply.s_result_7,
-      Gen.Mds12.mds_multiply.s_result_8, Gen.Mds12.mds_multiply.s_result_9,
-      Gen.Mds12.mds_multiply.s_result_10, Gen.Mds12.mds_multiply.s_result_11,
-      Gen.Mds12.mds_multiply.s_state_l_0, Gen.Mds12.mds_multiply.s_state_l_1,
-      Gen.Mds12.mds_multiply.s_state_l_2, Gen.Mds12.mds_multiply.s_state_l_3,
-      Gen.Mds12.mds_multiply.s_state_l_4, Gen.Mds12.mds_multiply.s_state_l_5,
-      Gen.Mds12.mds_multiply.s_state_l_6, Gen.Mds12.mds_multiply.s_state_l_7,
-      Gen.Mds12.mds_multiply.s_state_l_8, Gen.Mds12.mds_multiply.s_state_l_9,
-      Gen.Mds12.mds_multiply.s_state_l_10, Gen.Mds12.mds_multiply.s_state_l_11,
-      Gen.Mds12.mds_multiply.s_state_h_0, Gen.Mds12.mds_multiply.s_state_h_1,
-      Gen.Mds12.mds_multiply.s_state_h_2, Gen.Mds12.mds_multiply.s_state_h_3,
-      Gen.Mds12.mds_multiply.s_state_h_4, Gen.Mds12.mds_multiply.s_state_h_5,
-      Gen.Mds12.mds_multiply.s_state_h_6, Gen.Mds12.mds_multiply.s_state_h_7,
-      Gen.Mds12.mds_multiply.s_state_h_8, Gen.Mds12.mds_multiply.s_state_h_9,
-      Gen.Mds12.mds_multiply.s_state_h_10, Gen.Mds12.mds_multiply.s_state_h_11, Gen.Mds12.mds_multiply.s_s,
-      Gen.Mds12.mds_multiply.s_state_h_0_1, Gen.Mds12.mds_multiply.s_state_l_0_1,
-      Gen.Mds12.mds_multiply.s_s_1, Gen.Mds12.mds_multiply.s_state_h_1_1,
-      Gen.Mds12.mds_multiply.s_state_l_1_1, Gen.Mds12.mds_multiply.s_s_2,
-      Gen.Mds12.mds_multiply.s_state_h_2_1, Gen.Mds12.mds_multiply.s_state_l_2_1,
-      Gen.Mds12.mds_multiply.s_s_3, Gen.Mds12.mds_multiply.s_state_h_3_1,
-      Gen.Mds12.mds_multiply.s_state_l_3_1, Gen.Mds12.mds_multiply.s_s_4,
-      Gen.Mds12.mds_multiply.s_state_h_4_1, Gen.Mds12.mds_multiply.s_state_l_4_1,
-      Gen.Mds12.mds_multiply.s_s_5, Gen.Mds12.mds_multiply.s_state_h_5_1,
-      Gen.Mds12.mds_multiply.s_state_l_5_1, Gen.Mds12.mds_multiply.s_s_6,
-      Gen.Mds12.mds_multiply.s_state_h_6_1, Gen.Mds12.mds_multiply.s_state_l_6_1,
-      Gen.Mds12.mds_multiply.s_s_7, Gen.Mds12.mds_multiply.s_state_h_7_1,
-      Gen.Mds12.mds_multiply.s_state_l_7_1, Gen.Mds12.mds_multiply.s_s_8,
-      Gen.Mds12.mds_multiply.s_state_h_8_1, Gen.Mds12.mds_multiply.s_state_l_8_1,
-      Gen.Mds12.mds_multiply.s_s_9, Gen.Mds12.mds_multiply.s_state_h_9_1,
-      Gen.Mds12.mds_multiply.s_state_l_9_1, Gen.Mds12.mds_multiply.s_s_10,
-      Gen.Mds12.mds_multiply.s_state_h_10_1, Gen.Mds12.mds_multiply.s_state_l_10_1,
-      Gen.Mds12.mds_multiply.s_s_11, Gen.Mds12.mds_multiply.s_state_h_11_1,
-      Gen.Mds12.mds_multiply.s_state_l_11_1, Gen.Mds12.mds_multiply.s_r,
-      Gen.Mds12.mds_multiply.s_state_h_0_2, Gen.Mds12.mds_multiply.s_state_h_1_2,
-      Gen.Mds12.mds_multiply.s_state_h_2_2, Gen.Mds12.mds_multiply.s_state_h_3_2,
-      Gen.Mds12.mds_multiply.s_state_h_4_2, Gen.Mds12.mds_multiply.s_state_h_5_2,
-      Gen.Mds12.mds_multiply.s_state_h_6_2, Gen.Mds12.mds_multiply.s_state_h_7_2,
-      Gen.Mds12.mds_multiply.s_state_h_8_2, Gen.Mds12.mds_multiply.s_state_h_9_2,
-      Gen.Mds12.mds_multiply.s_state_h_10_2, Gen.Mds12.mds_multiply.s_state_h_11_2,
-      Gen.Mds12.mds_multiply.s_r_1, Gen.Mds12.mds_multiply.s_state_l_0_2,
-      Gen.Mds12.mds_multiply.s_state_l_1_2, Gen.Mds12.mds_multiply.s_state_l_2_2,
-      Gen.Mds12.mds_multiply.s_state_l_3_2, Gen.Mds12.mds_multiply.s_state_l_4_2,
-      Gen.Mds12.mds_multiply.s_state_l_5_2, Gen.Mds12.mds_multiply.s_state_l_6_2,
-      Gen.Mds12.mds_multiply.s_state_l_7_2, Gen.Mds12.mds_multiply.s_state_l_8_2,
-      Gen.Mds12.mds_multiply.s_state_l_9_2, Gen.Mds12.mds_multiply.s_state_l_10_2,
-      Gen.Mds12.mds_multiply.s_state_l_11_2, Gen.Mds12.mds_multiply.s_s_12, Gen.Mds12.mds_multiply.s_s_hi,
-      Gen.Mds12.mds_multiply.s_s_lo, Gen.Mds12.mds_multiply.s_z, Gen.Mds12.mds_multiply.s_res,
-      Gen.Mds12.mds_multiply.s_over, Gen.Mds12.mds_multiply.s_result_0_1, Gen.Mds12.mds_multiply.s_s_13,
-      Gen.Mds12.mds_multiply.s_s_hi_1, Gen.Mds12.mds_multiply.s_s_lo_1, Gen.Mds12.mds_multiply.s_z_1,
-      Gen.Mds12.mds_multiply.s_res_1, Gen.Mds12.mds_multiply.s_over_1, Gen.Mds12.mds_multiply.s_result_1_1,
-      Gen.Mds12.mds_multiply.s_s_14, Gen.Mds12.mds_multiply.s_s_hi_2, Gen.Mds12.mds_multiply.s_s_lo_2,
-      Gen.Mds12.mds_multiply.s_z_2, Gen.Mds12.mds_multiply.s_res_2, Gen.Mds12.mds_multiply.s_over_2,
-      Gen.Mds12.mds_multiply.s_result_2_1, Gen.Mds12.mds_multiply.s_s_15, Gen.Mds12.mds_multiply.s_s_hi_3,
-      Gen.Mds12.mds_multiply.s_s_lo_3, Gen.Mds12.mds_multiply.s_z_3, Gen.Mds12.mds_multiply.s_res_3,
-      Gen.Mds12.mds_multiply.s_over_3, Gen.Mds12.mds_multiply.s_result_3_1, Gen.Mds12.mds_multiply.s_s_16,
-      Gen.Mds12.mds_multiply.s_s_hi_4, Gen.Mds12.mds_multiply.s_s_lo_4, Gen.Mds12.mds_multiply.s_z_4,
-      Gen.Mds12.mds_multiply.s_res_4, Gen.Mds12.mds_multiply.s_over_4, Gen.Mds12.mds_multiply.s_result_4_1,
-      Gen.Mds12.mds_multiply.s_s_17, Gen.Mds12.mds_multiply.s_s_hi_5, Gen.Mds12.mds_multiply.s_s_lo_5,
-      Gen.Mds12.mds_multiply.s_z_5, Gen.Mds12.mds_multiply.s_res_5, Gen.Mds12.mds_multiply.s_over_5,
-      Gen.Mds12.mds_multiply.s_result_5_1, Gen.Mds12.mds_multiply.s_s_18, Gen.Mds12.mds_multiply.s_s_hi_6,
-      Gen.Mds12.mds_multiply.s_s_lo_6, Gen.Mds12.mds_multiply.s_z_6, Gen.Mds12.mds_multiply.s_res_6,
-      Gen.Mds12.mds_multiply.s_over_6, Gen.Mds12.mds_multiply.s_result_6_1, Gen.Mds12.mds_multiply.s_s_19,
-      Gen.Mds12.mds_multiply.s_s_hi_7, Gen.Mds12.mds_multiply.s_s_lo_7, Gen.Mds12.mds_multiply.s_z_7,
-      Gen.Mds12.mds_multiply.s_res_7, Gen.Mds12.mds_multiply.s_over_7, Gen.Mds12.mds_multiply.s_result_7_1,
-      Gen.Mds12.mds_multiply.s_s_20, Gen.Mds12.mds_multiply.s_s_hi_8, Gen.Mds12.mds_multiply.s_s_lo_8,
-      Gen.Mds12.mds_multiply.s_z_8, Gen.Mds12.mds_multiply.s_res_8, Gen.Mds12.mds_multiply.s_over_8,
-      Gen.Mds12.mds_multiply.s_result_8_1, Gen.Mds12.mds_multiply.s_s_21, Gen.Mds12.mds_multiply.s_s_hi_9,
-      Gen.Mds12.mds_multiply.s_s_lo_9, Gen.Mds12.mds_multiply.s_z_9, Gen.Mds12.mds_multiply.s_res_9,
-      Gen.Mds12.mds_multiply.s_over_9, Gen.Mds12.mds_multiply.s_result_9_1, Gen.Mds12.mds_multiply.s_s_22,
-      Gen.Mds12.mds_multiply.s_s_hi_10, Gen.Mds12.mds_multiply.s_s_lo_10, Gen.Mds12.mds_multiply.s_z_10,
-      Gen.Mds12.mds_multiply.s_res_10, Gen.Mds12.mds_multiply.s_over_10,
-      Gen.Mds12.mds_multiply.s_result_10_1, Gen.Mds12.mds_multiply.s_s_23,
-      Gen.Mds12.mds_multiply.s_s_hi_11, Gen.Mds12.mds_multiply.s_s_lo_11, Gen.Mds12.mds_multiply.s_z_11,
-      Gen.Mds12.mds_multiply.s_res_11, Gen.Mds12.mds_multiply.s_over_11,
-      Gen.Mds12.mds_multiply.s_result_11_1, Gen.Mds12.mds_multiply.s_state_0_1,
-      Gen.Mds12.mds_multiply.s_state_1_1, Gen.Mds12.mds_multiply.s_state_2_1,
-      Gen.Mds12.mds_multiply.s_state_3_1, Gen.Mds12.mds_multiply.s_state_4_1,
-      Gen.Mds12.mds_multiply.s_state_5_1, Gen.Mds12.mds_multiply.s_state_6_1,
-      Gen.Mds12.mds_multiply.s_state_7_1, Gen.Mds12.mds_multiply.s_state_8_1,
-      Gen.Mds12.mds_multiply.s_state_9_1, Gen.Mds12.mds_multiply.s_state_10_1,
-      Gen.Mds12.mds_multiply.s_state_11_1, Gen.Mds12.mds_multiply, Gen.Mds12.mds_multiply_ok,
-      vh, vl, tailRed]
-
-/-- no intermediate of `mds_multiply` overflows, for all raw words -/
-theorem mm_ok (x0 x1 x2 x3 x4 x5 x6 x7 x8 x9 x10 x11 : Nat) (hx0 : x0 < 18446744073709551616) (hx1 : x1 < 18446744073709551616) (hx2 : x2 < 18446744073709551616) (hx3 : x3 < 18446744073709551616) (hx4 : x4 < 18446744073709551616) (hx5 : x5 < 18446744073709551616) (hx6 : x6 < 18446744073709551616) (hx7 : x7 < 18446744073709551616) (hx8 : x8 < 18446744073709551616) (hx9 : x9 < 18446744073709551616) (hx10 : x10 < 18446744073709551616) (hx11 : x11 < 18446744073709551616) :
-    Gen.Mds12.mds_multiply_ok x0 x1 x2 x3 x4 x5 x6 x7 x8 x9 x10 x11 = true := by
-  have hh0 : x0 / 4294967296 < 4294967296 := by omega
-  have hl0 : x0 % 4294967296 < 4294967296 := by omega
-  have hh1 : x1 / 4294967296 < 4294967296 := by omega
-  have hl1 : x1 % 4294967296 < 4294967296 := by omega
-  have hh2 : x2 / 4294967296 < 4294967296 := by omega
-  have hl2 : x2 % 4294967296 < 4294967296 := by omega
-  have hh3 : x3 / 4294967296 < 4294967296 := by omega
-  have hl3 : x3 % 4294967296 < 4294967296 := by omega
-  have hh4 : x4 / 4294967296 < 4294967296 := by omega
-  have hl4 : x4 % 4294967296 < 4294967296 := by omega
-  have hh5 : x5 / 4294967296 < 4294967296 := by omega
-  have hl5 : x5 % 4294967296 < 4294967296 := by omega
-  have hh6 : x6 / 4294967296 < 4294967296 := by omega
-  have hl6 : x6 % 4294967296 < 4294967296 := by omega
-  have hh7 : x7 / 4294967296 < 4294967296 := by omega
-  have hl7 : x7 % 4294967296 < 4294967296 := by omega
-  have hh8 : x8 / 4294967296 < 4294967296 := by omega
-  have hl8 : x8 % 4294967296 < 4294967296 := by omega
-  have hh9 : x9 / 4294967296 < 4294967296 := by omega
-  have hl9 : x9 % 4294967296 < 4294967296 := by omega
-  have hh10 : x10 / 4294967296 < 4294967296 := by omega
-  have hl10 : x10 % 4294967296 < 4294967296 := by omega
-  have hh11 : x11 / 4294967296 < 4294967296 := by omega
-  have hl11 : x11 % 4294967296 < 4294967296 := by omega
-  have okh := freq_ok _ _ _ _ _ _ _ _ _ _ _ _ hh0 hh1 hh2 hh3 hh4 hh5 hh6 hh7 hh8 hh9 hh10 hh11
-  have okl := freq_ok _ _ _ _ _ _ _ _ _ _ _ _ hl0 hl1 hl2 hl3 hl4 hl5 hl6 hl7 hl8 hl9 hl10 hl11
-  have vh := freq_eq_tuple _ _ _ _ _ _ _ _ _ _ _ _ hh0 hh1 hh2 hh3 hh4 hh5 hh6 hh7 hh8 hh9 hh10 hh11
-  have vl := freq_eq_tuple _ _ _ _ _ _ _ _ _ _ _ _ hl0 hl1 hl2 hl3 hl4 hl5 hl6 hl7 hl8 hl9 hl10 hl11
-  simp only [Gen.Mds12.mds_multiply.s_result_0, Gen.Mds12.mds_multiply.s_result_1,
-      Gen.Mds12.mds_multiply.s_result_2, Gen.Mds12.mds_multiply.s_result_3,
-      Gen.Mds12.mds_multiply.s_result_4, Gen.Mds12.mds_multiply.s_result_5,
-      Gen.Mds12.mds_multiply.s_result_6, Gen.Mds12.mds_multiply.s_result_7,
-      Gen.Mds12.mds_multiply.s_result_8, Gen.Mds12.mds_multiply.s_result_9,
-      Gen.Mds12.mds_multiply.s_result_10, Gen.Mds12.mds_multiply.s_result_11,
-      Gen.Mds12.mds_multiply.s_state_l_0, Gen.Mds12.mds_multiply.s_state_l_1,
-      Gen.Mds12.mds_multiply.s_state_l_2, Gen.Mds12.mds_multiply.s_state_l_3,
-      Gen.Mds12.mds_multiply.s_state_l_4, Gen.Mds12.mds_multiply.s_state_l_5,
-      Gen.Mds12.mds_multiply.s_state_l_6, Gen.Mds12.mds_multiply.s_state_l_7,
-      Gen.Mds12.mds_multiply.s_state_l_8, Gen.Mds12.mds_multiply.s_state_l_9,
-      Gen.Mds12.mds_multiply.s_state_l_10, Gen.Mds12.mds_multiply.s_state_l_11,
-      Gen.Mds12.mds_multiply.s_state_h_0, Gen.Mds12.mds_multiply.s_state_h_1,
-      Gen.Mds12.mds_multiply.s_state_h_2, Gen.Mds12.mds_multiply.s_state_h_3,
-      Gen.Mds12.mds_multiply.s_state_h_4, Gen.Mds12.mds_multiply.s_state_h_5,
-      Gen.Mds12.mds_multiply.s_state_h_6, Gen.Mds12.mds_multiply.s_state_h_7,
-      Gen.Mds12.mds_multiply.s_state_h_8, Gen.Mds12.mds_multiply.s_state_h_9,
-      Gen.Mds12.mds_multiply.s_state_h_10, Gen.Mds12.mds_multiply.s_state_h_11, Gen.Mds12.mds_multiply.s_s,
-      Gen.Mds12.mds_multiply.s_state_h_0_1, Gen.Mds12.mds_multiply.s_state_l_0_1,
-      Gen.Mds12.mds_multiply.s_s_1, Gen.Mds12.mds_multiply.s_state_h_1_1,
-      Gen.Mds12.mds_multiply.s_state_l_1_1, Gen.Mds12.mds_multiply.s_s_2,
-      Gen.Mds12.mds_multiply.s_state_h_2_1, Gen.Mds12.mds_multiply.s_state_l_2_1,
-      Gen.Mds12.mds_multiply.s_s_3, Gen.Mds12.mds_multiply.s_state_h_3_1,
-      Gen.Mds12.mds_multiply.s_state_l_3_1, Gen.Mds12.mds_multiply.s_s_4,
-      Gen.Mds12.mds_multiply.s_state_h_4_1, Gen.Mds12.mds_multiply.s_state_l_4_1,
-      Gen.Mds12.mds_multiply.s_s_5, Gen.Mds12.mds_multiply.s_state_h_5_1,
-      Gen.Mds12.mds_multiply.s_state_l_5_1, Gen.Mds12.mds_multiply.s_s_6,
-      Gen.Mds12.mds_multiply.s_state_h_6_1, Gen.Mds12.mds_multiply.s_state_l_6_1,
-      Gen.Mds12.mds_multiply.s_s_7, Gen.Mds12.mds_multiply.s_state_h_7_1,
-      Gen.Mds12.mds_multiply.s_state_l_7_1, Gen.Mds12.mds_multiply.s_s_8,
-      Gen.Mds12.mds_multiply.s_state_h_8_1, Gen.Mds12.mds_multiply.s_state_l_8_1,
-      Gen.Mds12.mds_multiply.s_s_9, Gen.Mds12.mds_multiply.s_state_h_9_1,
-      Gen.Mds12.mds_multiply.s_state_l_9_1, Gen.Mds12.mds_multiply.s_s_10,
-      Gen.Mds12.mds_multiply.s_state_h_10_1, Gen.Mds12.mds_multiply.s_state_l_10_1,
-      Gen.Mds12.mds_multiply.s_s_11, Gen.Mds12.mds_multiply.s_state_h_11_1,
-      Gen.Mds12.mds_multiply.s_state_l_11_1, Gen.Mds12.mds_multiply.s_r,
-      Gen.Mds12.mds_multiply.s_state_h_0_2, Gen.Mds12.mds_multiply.s_state_h_1_2,
-      Gen.Mds12.mds_multiply.s_state_h_2_2, Gen.Mds12.mds_multiply.s_state_h_3_2,
-      Gen.Mds12.mds_multiply.s_state_h_4_2, Gen.Mds12.mds_multiply.s_state_h_5_2,
-      Gen.Mds12.mds_multiply.s_state_h_6_2, Gen.Mds12.mds_multiply.s_state_h_7_2,
-      Gen.Mds12.mds_multiply.s_state_h_8_2, Gen.Mds12.mds_multiply.s_state_h_9_2,
-      Gen.Mds12.mds_multiply.s_state_h_10_2, Gen.Mds12.mds_multiply.s_state_h_11_2,
-      Gen.Mds12.mds_multiply.s_r_1, Gen.Mds12.mds_multiply.s_state_l_0_2,
-      Gen.Mds12.mds_multiply.s_state_l_1_2, Gen.Mds12.mds_multiply.s_state_l_2_2,
-      Gen.Mds12.mds_multiply.s_state_l_3_2, Gen.Mds12.mds_multiply.s_state_l_4_2,
-      Gen.Mds12.mds_multiply.s_state_l_5_2, Gen.Mds12.mds_multiply.s_state_l_6_2,
-      Gen.Mds12.mds_multiply.s_state_l_7_2, Gen.Mds12.mds_multiply.s_state_l_8_2,
-      Gen.Mds12.mds_multiply.s_state_l_9_2, Gen.Mds12.mds_multiply.s_state_l_10_2,
-      Gen.Mds12.mds_multiply.s_state_l_11_2, Gen.Mds12.mds_multiply.s_s_12, Gen.Mds12.mds_multiply.s_s_hi,
-      Gen.Mds12.mds_multiply.s_s_lo, Gen.Mds12.mds_multiply.s_z, Gen.Mds12.mds_multiply.s_res,
-      Gen.Mds12.mds_multiply.s_over, Gen.Mds12.mds_multiply.s_result_0_1, Gen.Mds12.mds_multiply.s_s_13,
-      Gen.Mds12.mds_multiply.s_s_hi_1, Gen.Mds12.mds_multiply.s_s_lo_1, Gen.Mds12.mds_multiply.s_z_1,
-      Gen.Mds12.mds_multiply.s_res_1, Gen.Mds12.mds_multiply.s_over_1, Gen.Mds12.mds_multiply.s_result_1_1,
-      Gen.Mds12.mds_multiply.s_s_14, Gen.Mds12.mds_multiply.s_s_hi_2, Gen.Mds12.mds_multiply.s_s_lo_2,
-      Gen.Mds12.mds_multiply.s_z_2, Gen.Mds12.mds_multiply.s_res_2, Gen.Mds12.mds_multiply.s_over_2,
-      Gen.Mds12.mds_multiply.s_result_2_1, Gen.Mds12.mds_multiply.s_s_15, Gen.Mds12.mds_multiply.s_s_hi_3,
-      Gen.Mds12.mds_multiply.s_s_lo_3, Gen.Mds12.mds_multiply.s_z_3, Gen.Mds12.mds_multiply.s_res_3,
-      Gen.Mds12.mds_multiply.s_over_3, Gen.Mds12.mds_multiply.s_result_3_1, Gen.Mds12.mds_multiply.s_s_16,
-      Gen.Mds12.mds_multiply.s_s_hi_4, Gen.Mds12.mds_multiply.s_s_lo_4, Gen.Mds12.mds_multiply.s_z_4,
-      Gen.Mds12.mds_multiply.s_res_4, Gen.Mds12.mds_multiply.s_over_4, Gen.Mds12.mds_multiply.s_result_4_1,
-      Gen.Mds12.mds_multiply.s_s_17, Gen.Mds12.mds_multiply.s_s_hi_5, Gen.Mds12.mds_multiply.s_s_lo_5,
-      Gen.Mds12.mds_multiply.s_z_5, Gen.Mds12.mds_multiply.s_res_5, Gen.Mds12.mds_multiply.s_over_5,
-      Gen.Mds12.mds_multiply.s_result_5_1, Gen.Mds12.mds_multiply.s_s_18, Gen.Mds12.mds_multiply.s_s_hi_6,
-      Gen.Mds12.mds_multiply.s_s_lo_6, Gen.Mds12.mds_multiply.s_z_6, Gen.Mds12.mds_multiply.s_res_6,
-      Gen.Mds12.mds_multiply.s_over_6, Gen.Mds12.mds_multiply.s_result_6_1, Gen.Mds12.mds_multiply.s_s_19,
-      Gen.Mds12.mds_multiply.s_s_hi_7, Gen.Mds12.mds_multiply.s_s_lo_7, Gen.Mds12.mds_multiply.s_z_7,
-      Gen.Mds12.mds_multiply.s_res_7, Gen.Mds12.mds_multiply.s_over_7, Gen.Mds12.mds_multiply.s_result_7_1,
-      Gen.Mds12.mds_multiply.s_s_20, Gen.Mds12.mds_multiply.s_s_hi_8, Gen.Mds12.mds_multiply.s_s_lo_8,
-      Gen.Mds12.mds_multiply.s_z_8, Gen.Mds12.mds_multiply.s_res_8, Gen.Mds12.mds_multiply.s_over_8,
-      Gen.Mds12.mds_multiply.s_result_8_1, Gen.Mds12.mds_multiply.s_s_21, Gen.Mds12.mds_multiply.s_s_hi_9,
-      Gen.Mds12.mds_multiply.s_s_lo_9, Gen.Mds12.mds_multiply.s_z_9, Gen.Mds12.mds_multiply.s_res_9,
-      Gen.Mds12.mds_multiply.s_over_9, Gen.Mds12.mds_multiply.s_result_9_1, Gen.Mds12.mds_multiply.s_s_22,
-      Gen.Mds12.mds_multiply.s_s_hi_10, Gen.Mds12.mds_multiply.s_s_lo_10, Gen.Mds12.mds_multiply.s_z_10,
-      Gen.Mds12.mds_multiply.s_res_10, Gen.Mds12.mds_multiply.s_over_10,
-      Gen.Mds12.mds_multiply.s_result_10_1, Gen.Mds12.mds_multiply.s_s_23,
-      Gen.Mds12.mds_multiply.s_s_hi_11, Gen.Mds12.mds_multiply.s_s_lo_11, Gen.Mds12.mds_multiply.s_z_11,
-      Gen.Mds12.mds_multiply.s_res_11, Gen.Mds12.mds_multiply.s_over_11,
-      Gen.Mds12.mds_multiply.s_result_11_1, Gen.Mds12.mds_multiply.s_state_0_1,
-      Gen.Mds12.mds_multiply.s_state_1_1, Gen.Mds12.mds_multiply.s_state_2_1,
-      Gen.Mds12.mds_multiply.s_state_3_1, Gen.Mds12.mds_multiply.s_state_4_1,
-      Gen.Mds12.mds_multiply.s_state_5_1, Gen.Mds12.mds_multiply.s_state_6_1,
-      Gen.Mds12.mds_multiply.s_state_7_1, Gen.Mds12.mds_multiply.s_state_8_1,
-      Gen.Mds12.mds_multiply.s_state_9_1, Gen.Mds12.mds_multiply.s_state_10_1,
-      Gen.Mds12.mds_multiply.s_state_11_1, Gen.Mds12.mds_multiply, Gen.Mds12.mds_multiply_ok,
-      okh, okl, vh, vl, Bool.and_eq_true, decide_eq_true_eq, decide_true, Bool.true_and]
-  refine ⟨(tail_ok1 _ _ (by omega) (by omega)), (tail_ok2 _ _ (by omega) (by omega)),
-      (tail_ok1 _ _ (by omega) (by omega)), (tail_ok2 _ _ (by omega) (by omega)),
-      (tail_ok1 _ _ (by omega) (by omega)), (tail_ok2 _ _ (by omega) (by omega)),
-      (tail_ok1 _ _ (by omega) (by omega)), (tail_ok2 _ _ (by omega) (by omega)),
-      (tail_ok1 _ _ (by omega) (by omega)), (tail_ok2 _ _ (by omega) (by omega)),
-      (tail_ok1 _ _ (by omega) (by omega)), (tail_ok2 _ _ (by omega) (by omega)),
-      (tail_ok1 _ _ (by omega) (by omega)), (tail_ok2 _ _ (by omega) (by omega)),
-      (tail_ok1 _ _ (by omega) (by omega)), (tail_ok2 _ _ (by omega) (by omega)),
-      (tail_ok1 _ _ (by omega) (by omega)), (tail_ok2 _ _ (by omega) (by omega)),
-      (tail_ok1 _ _ (by omega) (by omega)), (tail_ok2 _ _ (by omega) (by omega)),
-      (tail_ok1 _ _ (by omega) (by omega)), (tail_ok2 _ _ (by omega) (by omega)),
-      (tail_ok1 _ _ (by omega) (by omega)), (tail_ok2 _ _ (by omega) (by omega))⟩
-
-/-- every component of `mds_multiply` is a 64-bit word congruent modulo `p` to the matrix-vector
-    product (as an integer) of the MDS rows with the raw words -/
-theorem mm_spec (x0 x1 x2 x3 x4 x5 x6 x7 x8 x9 x10 x11 : Nat) (hx0 : x0 < 18446744073709551616) (hx1 : x1 < 18446744073709551616) (hx2 : x2 < 18446744073709551616) (hx3 : x3 < 18446744073709551616) (hx4 : x4 < 18446744073709551616) (hx5 : x5 < 18446744073709551616) (hx6 : x6 < 18446744073709551616) (hx7 : x7 < 18446744073709551616) (hx8 : x8 < 18446744073709551616) (hx9 : x9 < 18446744073709551616) (hx10 : x10 < 18446744073709551616) (hx11 : x11 < 18446744073709551616) :
-    match Gen.Mds12.mds_multiply x0 x1 x2 x3 x4 x5 x6 x7 x8 x9 x10 x11 with
-    | (r0, r1, r2, r3, r4, r5, r6, r7, r8, r9, r10, r11) =>
-    (r0 < 18446744073709551616 ∧ ∃ k, 7 * x0 + 23 * x1 + 8 * x2 + 26 * x3 + 13 * x4 + 10 * x5 + 9 * x6 + 7 * x7 + 6 * x8 + 22 * x9 + 21 * x10 + 8 * x11 = r0 + k * 18446744069414584321) ∧
-    (r1 < 18446744073709551616 ∧ ∃ k, 8 * x0 + 7 * x1 + 23 * x2 + 8 * x3 + 26 * x4 + 13 * x5 + 10 * x6 + 9 * x7 + 7 * x8 + 6 * x9 + 22 * x10 + 21 * x11 = r1 + k * 18446744069414584321) ∧
-    (r2 < 18446744073709551616 ∧ ∃ k, 21 * x0 + 8 * x1 + 7 * x2 + 23 * x3 + 8 * x4 + 26 * x5 + 13 * x6 + 10 * x7 + 9 * x8 + 7 * x9 + 6 * x10 + 22 * x11 = r2 + k * 18446744069414584321) ∧
-    (r3 < 18446744073709551616 ∧ ∃ k, 22 * x0 + 21 * x1 + 8 * x2 + 7 * x3 + 23 * x4 + 8 * x5 + 26 * x6 + 13 * x7 + 10 * x8 + 9 * x9 + 7 * x10 + 6 * x11 = r3 + k * 18446744069414584321) ∧
-    (r4 < 18446744073709551616 ∧ ∃ k, 6 * x0 + 22 * x1 + 21 * x2 + 8 * x3 + 7 * x4 + 23 * x5 + 8 * x6 + 26 * x7 + 13 * x8 + 10 * x9 + 9 * x10 + 7 * x11 = r4 + k * 18446744069414584321) ∧
-    (r5 < 18446744073709551616 ∧ ∃ k, 7 * x0 + 6 * x1 + 22 * x2 + 21 * x3 + 8 * x4 + 7 * x5 + 23 * x6 + 8 * x7 + 26 * x8 + 13 * x9 + 10 * x10 + 9 * x11 = r5 + k * 18446744069414584321) ∧
-    (r6 < 18446744073709551616 ∧ ∃ k, 9 * x0 + 7 * x1 + 6 * x2 + 22 * x3 + 21 * x4 + 8 * x5 + 7 * x6 + 23 * x7 + 8 * x8 + 26 * x9 + 13 * x10 + 10 * x11 = r6 + k * 18446744069414584321) ∧
-    (r7 < 18446744073709551616 ∧ ∃ k, 10 * x0 + 9 * x1 + 7 * x2 + 6 * x3 + 22 * x4 + 21 * x5 + 8 * x6 + 7 * x7 + 23 * x8 + 8 * x9 + 26 * x10 + 13 * x11 = r7 + k * 18446744069414584321) ∧
-    (r8 < 18446744073709551616 ∧ ∃ k, 13 * x0 + 10 * x1 + 9 * x2 + 7 * x3 + 6 * x4 + 22 * x5 + 21 * x6 + 8 * x7 + 7 * x8 + 23 * x9 + 8 * x10 + 26 * x11 = r8 + k * 18446744069414584321) ∧
-    (r9 < 18446744073709551616 ∧ ∃ k, 26 * x0 + 13 * x1 + 10 * x2 + 9 * x3 + 7 * x4 + 6 * x5 + 22 * x6 + 21 * x7 + 8 * x8 + 7 * x9 + 23 * x10 + 8 * x11 = r9 + k * 18446744069414584321) ∧
-    (r10 < 18446744073709551616 ∧ ∃ k, 8 * x0 + 26 * x1 + 13 * x2 + 10 * x3 + 9 * x4 + 7 * x5 + 6 * x6 + 22 * x7 + 21 * x8 + 8 * x9 + 7 * x10 + 23 * x11 = r10 + k * 18446744069414584321) ∧
-    (r11 < 18446744073709551616 ∧ ∃ k, 23 * x0 + 8 * x1 + 26 * x2 + 13 * x3 + 10 * x4 + 9 * x5 + 7 * x6 + 6 * x7 + 22 * x8 + 21 * x9 + 8 * x10 + 7 * x11 = r11 + k * 18446744069414584321) := by
-  rw [mm_eq_tail x0 x1 x2 x3 x4 x5 x6 x7 x8 x9 x10 x11 hx0 hx1 hx2 hx3 hx4 hx5 hx6 hx7 hx8 hx9 hx10 hx11]
-  refine ⟨(by obtain ⟨hb, k, hk⟩ := tail_val (7 * (x0 % 4294967296) + 23 * (x1 % 4294967296) + 8 * (x2 % 4294967296) + 26 * (x3 % 4294967296) + 13 * (x4 % 4294967296) + 10 * (x5 % 4294967296) + 9 * (x6 % 4294967296) + 7 * (x7 % 4294967296) + 6 * (x8 % 4294967296) + 22 * (x9 % 4294967296) + 21 * (x10 % 4294967296) + 8 * (x11 % 4294967296)) (7 * (x0 / 4294967296) + 23 * (x1 / 4294967296) + 8 * (x2 / 4294967296) + 26 * (x3 / 4294967296) + 13 * (x4 / 4294967296) + 10 * (x5 / 4294967296) + 9 * (x6 / 4294967296) + 7 * (x7 / 4294967296) + 6 * (x8 / 4294967296) + 22 * (x9 / 4294967296) + 21 * (x10 / 4294967296) + 8 * (x11 / 4294967296)) (by omega) (by omega); exact ⟨hb, k, by omega⟩),
-      (by obtain ⟨hb, k, hk⟩ := tail_val (8 * (x0 % 4294967296) + 7 * (x1 % 4294967296) + 23 * (x2 % 4294967296) + 8 * (x3 % 4294967296) + 26 * (x4 % 4294967296) + 13 * (x5 % 4294967296) + 10 * (x6 % 4294967296) + 9 * (x7 % 4294967296) + 7 * (x8 % 4294967296) + 6 * (x9 % 4294967296) + 22 * (x10 % 4294967296) + 21 * (x11 % 4294967296)) (8 * (x0 / 4294967296) + 7 * (x1 / 4294967296) + 23 * (x2 / 4294967296) + 8 * (x3 / 4294967296) + 26 * (x4 / 4294967296) + 13 * (x5 / 4294967296) + 10 * (x6 / 4294967296) + 9 * (x7 / 4294967296) + 7 * (x8 / 4294967296) + 6 * (x9 / 4294967296) + 22 * (x10 / 4294967296) + 21 * (x11 / 4294967296)) (by omega) (by omega); exact ⟨hb, k, by omega⟩),
-      (by obtain ⟨hb, k, hk⟩ := tail_val (21 * (x0 % 4294967296) + 8 * (x1 % 4294967296) + 7 * (x2 % 4294967296) + 23 * (x3 % 4294967296) + 8 * (x4 % 4294967296) + 26 * (x5 % 4294967296) + 13 * (x6 % 4294967296) + 10 * (x7 % 4294967296) + 9 * (x8 % 4294967296) + 7 * (x9 % 4294967296) + 6 * (x10 % 4294967296) + 22 * (x11 % 4294967296)) (21 * (x0 / 4294967296) + 8 * (x1 / 4294967296) + 7 * (x2 / 4294967296) + 23 * (x3 / 4294967296) + 8 * (x4 / 4294967296) + 26 * (x5 / 4294967296) + 13 * (x6 / 4294967296) + 10 * (x7 / 4294967296) + 9 * (x8 / 4294967296) + 7 * (x9 / 4294967296) + 6 * (x10 / 4294967296) + 22 * (x11 / 4294967296)) (by omega) (by omega); exact ⟨hb, k, by omega⟩),
-      (by obtain ⟨hb, k, hk⟩ := tail_val (22 * (x0 % 4294967296) + 21 * (x1 % 4294967296) + 8 * (x2 % 4294967296) + 7 * (x3 % 4294967296) + 23 * (x4 % 4294967296) + 8 * (x5 % 4294967296) + 26 * (x6 % 4294967296) + 13 * (x7 % 4294967296) + 10 * (x8 % 4294967296) + 9 * (x9 % 4294967296) + 7 * (x10 % 4294967296) + 6 * (x11 % 4294967296)) (22 * (x0 / 4294967296) + 21 * (x1 / 4294967296) + 8 * (x2 / 4294967296) + 7 * (x3 / 4294967296) + 23 * (x4 / 4294967296) + 8 * (x5 / 4294967296) + 26 * (x6 / 4294967296) + 13 * (x7 / 4294967296) + 10 * (x8 / 4294967296) + 9 * (x9 / 4294967296) + 7 * (x10 / 4294967296) + 6 * (x11 / 4294967296)) (by omega) (by omega); exact ⟨hb, k, by omega⟩),
-      (by obtain ⟨hb, k, hk⟩ := tail_val (6 * (x0 % 4294967296) + 22 * (x1 % 4294967296) + 21 * (x2 % 4294967296) + 8 * (x3 % 4294967296) + 7 * (x4 % 4294967296) + 23 * (x5 % 4294967296) + 8 * (x6 % 4294967296) + 26 * (x7 % 4294967296) + 13 * (x8 % 4294967296) + 10 * (x9 % 4294967296) + 9 * (x10 % 4294967296) + 7 * (x11 % 4294967296)) (6 * (x0 / 4294967296) + 22 * (x1 / 4294967296) + 21 * (x2 / 4294967296) + 8 * (x3 / 4294967296) + 7 * (x4 / 4294967296) + 23 * (x5 / 4294967296) + 8 * (x6 / 4294967296) + 26 * (x7 / 4294967296) + 13 * (x8 / 4294967296) + 10 * (x9 / 4294967296) + 9 * (x10 / 4294967296) + 7 * (x11 / 4294967296)) (by omega) (by omega); exact ⟨hb, k, by omega⟩),
-      (by obtain ⟨hb, k, hk⟩ := tail_val (7 * (x0 % 4294967296) + 6 * (x1 % 4294967296) + 22 * (x2 % 4294967296) + 21 * (x3 % 4294967296) + 8 * (x4 % 4294967296) + 7 * (x5 % 4294967296) + 23 * (x6 % 4294967296) + 8 * (x7 % 4294967296) + 26 * (x8 % 4294967296) + 13 * (x9 % 4294967296) + 10 * (x10 % 4294967296) + 9 * (x11 % 4294967296)) (7 * (x0 / 4294967296) + 6 * (x1 / 4294967296) + 22 * (x2 / 4294967296) + 21 * (x3 / 4294967296) + 8 * (x4 / 4294967296) + 7 * (x5 / 4294967296) + 23 * (x6 / 4294967296) + 8 * (x7 / 4294967296) + 26 * (x8 / 4294967296) + 13 * (x9 / 4294967296) + 10 * (x10 / 4294967296) + 9 * (x11 / 4294967296)) (by omega) (by omega); exact ⟨hb, k, by omega⟩),
-      (by obtain ⟨hb, k, hk⟩ := tail_val (9 * (x0 % 4294967296) + 7 * (x1 % 4294967296) + 6 * (x2 % 4294967296) + 22 * (x3 % 4294967296) + 21 * (x4 % 4294967296) + 8 * (x5 % 4294967296) + 7 * (x6 % 4294967296) + 23 * (x7 % 4294967296) + 8 * (x8 % 4294967296) + 26 * (x9 % 4294967296) + 13 * (x10 % 4294967296) + 10 * (x11 % 4294967296)) (9 * (x0 / 4294967296) + 7 * (x1 / 4294967296) + 6 * (x2 / 4294967296) + 22 * (x3 / 4294967296) + 21 * (x4 / 4294967296) + 8 * (x5 / 4294967296) + 7 * (x6 / 4294967296) + 23 * (x7 / 4294967296) + 8 * (x8 / 4294967296) + 26 * (x9 / 4294967296) + 13 * (x10 / 4294967296) + 10 * (x11 / 4294967296)) (by omega) (by omega); exact ⟨hb, k, by omega⟩),
-      (by obtain ⟨hb, k, hk⟩ := tail_val (10 * (x0 % 4294967296) + 9 * (x1 % 4294967296) + 7 * (x2 % 4294967296) + 6 * (x3 % 4294967296) + 22 * (x4 % 4294967296) + 21 * (x5 % 4294967296) + 8 * (x6 % 4294967296) + 7 * (x7 % 4294967296) + 23 * (x8 % 4294967296) + 8 * (x9 % 4294967296) + 26 * (x10 % 4294967296) + 13 * (x11 % 4294967296)) (10 * (x0 / 4294967296) + 9 * (x1 / 4294967296) + 7 * (x2 / 4294967296) + 6 * (x3 / 4294967296) + 22 * (x4 / 4294967296) + 21 * (x5 / 4294967296) + 8 * (x6 / 4294967296) + 7 * (x7 / 4294967296) + 23 * (x8 / 4294967296) + 8 * (x9 / 4294967296) + 26 * (x10 / 4294967296) + 13 * (x11 / 4294967296)) (by omega) (by omega); exact ⟨hb, k, by omega⟩),
-      (by obtain ⟨hb, k, hk⟩ := tail_val (13 * (x0 % 4294967296) + 10 * (x1 % 4294967296) + 9 * (x2 % 4294967296) + 7 * (x3 % 4294967296) + 6 * (x4 % 4294967296) + 22 * (x5 % 4294967296) + 21 * (x6 % 4294967296) + 8 * (x7 % 4294967296) + 7 * (x8 % 4294967296) + 23 * (x9 % 4294967296) + 8 * (x10 % 4294967296) + 26 * (x11 % 4294967296)) (13 * (x0 / 4294967296) + 10 * (x1 / 4294967296) + 9 * (x2 / 4294967296) + 7 * (x3 / 4294967296) + 6 * (x4 / 4294967296) + 22 * (x5 / 4294967296) + 21 * (x6 / 4294967296) + 8 * (x7 / 4294967296) + 7 * (x8 / 4294967296) + 23 * (x9 / 4294967296) + 8 * (x10 / 4294967296) + 26 * (x11 / 4294967296)) (by omega) (by omega); exact ⟨hb, k, by omega⟩),
-      (by obtain ⟨hb, k, hk⟩ := tail_val (26 * (x0 % 4294967296) + 13 * (x1 % 4294967296) + 10 * (x2 % 4294967296) + 9 * (x3 % 4294967296) + 7 * (x4 % 4294967296) + 6 * (x5 % 4294967296) + 22 * (x6 % 4294967296) + 21 * (x7 % 4294967296) + 8 * (x8 % 4294967296) + 7 * (x9 % 4294967296) + 23 * (x10 % 4294967296) + 8 * (x11 % 4294967296)) (26 * (x0 / 4294967296) + 13 * (x1 / 4294967296) + 10 * (x2 / 4294967296) + 9 * (x3 / 4294967296) + 7 * (x4 / 4294967296) + 6 * (x5 / 4294967296) + 22 * (x6 / 4294967296) + 21 * (x7 / 4294967296) + 8 * (x8 / 4294967296) + 7 * (x9 / 4294967296) + 23 * (x10 / 4294967296) + 8 * (x11 / 4294967296)) (by omega) (by omega); exact ⟨hb, k, by omega⟩),
-      (by obtain ⟨hb, k, hk⟩ := tail_val (8 * (x0 % 4294967296) + 26 * (x1 % 4294967296) + 13 * (x2 % 4294967296) + 10 * (x3 % 4294967296) + 9 * (x4 % 4294967296) + 7 * (x5 % 4294967296) + 6 * (x6 % 4294967296) + 22 * (x7 % 4294967296) + 21 * (x8 % 4294967296) + 8 * (x9 % 4294967296) + 7 * (x10 % 4294967296) + 23 * (x11 % 4294967296)) (8 * (x0 / 4294967296) + 26 * (x1 / 4294967296) + 13 * (x2 / 4294967296) + 10 * (x3 / 4294967296) + 9 * (x4 / 4294967296) + 7 * (x5 / 4294967296) + 6 * (x6 / 4294967296) + 22 * (x7 / 4294967296) + 21 * (x8 / 4294967296) + 8 * (x9 / 4294967296) + 7 * (x10 / 4294967296) + 23 * (x11 / 4294967296)) (by omega) (by omega); exact ⟨hb, k, by omega⟩),
-      (by obtain ⟨hb, k, hk⟩ := tail_val (23 * (x0 % 4294967296) + 8 * (x1 % 4294967296) + 26 * (x2 % 4294967296) + 13 * (x3 % 4294967296) + 10 * (x4 % 4294967296) + 9 * (x5 % 4294967296) + 7 * (x6 % 4294967296) + 6 * (x7 % 4294967296) + 22 * (x8 % 4294967296) + 21 * (x9 % 4294967296) + 8 * (x10 % 4294967296) + 7 * (x11 % 4294967296)) (23 * (x0 / 4294967296) + 8 * (x1 / 4294967296) + 26 * (x2 / 4294967296) + 13 * (x3 / 4294967296) + 10 * (x4 / 4294967296) + 9 * (x5 / 4294967296) + 7 * (x6 / 4294967296) + 6 * (x7 / 4294967296) + 22 * (x8 / 4294967296) + 21 * (x9 / 4294967296) + 8 * (x10 / 4294967296) + 7 * (x11 / 4294967296)) (by omega) (by omega); exact ⟨hb, k, by omega⟩)⟩
+      (tailRed (Gen.Mds12.mds_multiply_freq (x0 % 4294967296) (x1 % 4294967296) (x2 % 4294967296) (x3 % 4294967296) (x4 % 4294967296) (x5 % 4294967296) (x6 % 4294967296) (x7 % 4294967296) (x8 % 4294967296) (x9 % 4294967296) (x10 % 4294967296) (x11 % 4294967296)).1
+         (Gen.Mds12.mds_multiply_freq (x0 / 4294967296) (x1 / 4294967296) (x2 / 4294967296) (x3 / 4294967296) (x4 / 4294967296) (x5 / 4294967296) (x6 / 4294967296) (x7 / 4294967296) (x8 / 4294967296) (x9 / 4294967296) (x10 / 4294967296) (x11 / 4294967296)).1,
+       tailRed (Gen.Mds12.mds_multiply_freq (x0 % 4294967296) (x1 % 4294967296) (x2 % 4294967296) (x3 % 4294967296) (x4 % 4294967296) (x5 % 4294967296) (x6 % 4294967296) (x7 % 4294967296) (x8 % 4294967296) (x9 % 4294967296) (x10 % 4294967296) (x11 % 4294967296)).2.1
+         (Gen.Mds12.mds_multiply_freq (x0 / 4294967296) (x1 / 4294967296) (x2 / 4294967296) (x3 / 4294967296) (x4 / 4294967296) (x5 / 4294967296) (x6 / 4294967296) (x7 / 4294967296) (x8 / 4294967296) (x9 / 4294967296) (x10 / 4294967296) (x11 / 4294967296)).2.1,
+       tailRed (Gen.Mds12.mds_multiply_freq (x0 % 4294967296) (x1 % 4294967296) (x2 % 4294967296) (x3 % 4294967296) (x4 % 4294967296) (x5 % 4294967296) (x6 % 4294967296) (x7 % 4294967296) (x8 % 4294967296) (x9 % 4294967296) (x10 % 4294967296) (x11 % 4294967296)).2.2.1
+         (Gen.Mds12.mds_multiply_freq (x0 / 4294967296) (x1 / 4294967296) (x2 / 4294967296) (x3 / 4294967296) (x4 / 4294967296) (x5 / 4294967296) (x6 / 4294967296) (x7 / 4294967296) (x8 / 4294967296) (x9 / 4294967296) (x10 / 4294967296) (x11 / 4294967296)).2.2.1,
+       tailRed (Gen.Mds12.mds_multiply_freq (x0 % 4294967296) (x1 % 4294967296) (x2 % 4294967296) (x3 % 4294967296) (x4 % 4294967296) (x5 % 4294967296) (x6 % 4294967296) (x7 % 4294967296) (x8 % 4294967296) (x9 % 4294967296) (x10 % 4294967296) (x11 % 4294967296)).2.2.2.1
+         (Gen.Mds12.mds_multiply_freq (x0 / 4294967296) (x1 / 4294967296) (x2 / 4294967296) (x3 / 4294967296) (x4 / 4294967296) (x5 / 4294967296) (x6 / 4294967296) (x7 / 4294967296) (x8 / 4294967296) (x9 / 4294967296) (x10 / 4294967296) (x11 / 4294967296)).2.2.2.1,
+       tailRed (Gen.Mds12.mds_multiply_freq (x0 % 4294967296) (x1 % 4294967296) (x2 % 4294967296) (x3 % 4294967296) (x4 % 4294967296) (x5 % 4294967296) (x6 % 4294967296) (x7 % 4294967296) (x8 % 4294967296) (x9 % 4294967296) (x10 % 4294967296) (x11 % 4294967296)).2.2.2.2.1
+         (Gen.Mds12.mds_multiply_freq (x0 / 4294967296) (x1 / 4294967296) (x2 / 4294967296) (x3 / 4294967296) (x4 / 4294967296) (x5 / 4294967296) (x6 / 4294967296) (x7 / 4294967296) (x8 / 4294967296) (x9 / 4294967296) (x10 / 4294967296) (x11 / 4294967296)).2.2.2.2.1,
+       tailRed (Gen.Mds12.mds_multiply_freq (x0 % 4294967296) (x1 % 4294967296) (x2 % 4294967296) (x3 % 4294967296) (x4 % 4294967296) (x5 % 4294967296) (x6 % 4294967296) (x7 % 4294967296) (x8 % 4294967296) (x9 % 4294967296) (x10 % 4294967296) (x11 % 4294967296)).2.2.2.2.2.1
+         (Gen.Mds12.mds_multiply_freq (x0 / 4294967296) (x1 / 4294967296) (x2 / 4294967296) (x3 / 4294967296) (x4 / 4294967296) (x5 / 4294967296) (x6 / 4294967296) (x7 / 4294967296) (x8 / 4294967296) (x9 / 4294967296) (x10 / 4294967296) (x11 / 4294967296)).2.2.2.2.2.1,
+       tailRed (Gen.Mds12.mds_multiply_freq (x0 % 4294967296) (x1 % 4294967296) (x2 % 4294967296) (x3 % 4294967296) (x4 % 4294967296) (x5 % 4294967296) (x6 % 4294967296) (x7 % 4294967296) (x8 % 4294967296) (x9 % 4294967296) (x10 % 4294967296) (x11 % 4294967296)).2.2.2.2.2.2.1
+         (Gen.Mds12.mds_multiply_freq (x0 / 4294967296) (x1 / 4294967296) (x2 / 4294967296) (x3 / 4294967296) (x4 / 4294967296) (x5 / 4294967296) (x6 / 4294967296) (x7 / 4294967296) (x8 / 4294967296) (x9 / 4294967296) (x10 / 4294967296) (x11 / 4294967296)).2.2.2.2.2.2.1,
+       tailRed (Gen.Mds12.mds_multiply_freq (x0 % 4294967296) (x1 % 4294967296) (x2 % 4294967296) (x3 % 4294967296) (x4 % 4294967296) (x5 % 4294967296) (x6 % 4294967296) (x7 % 4294967296) (x8 % 4294967296) (x9 % 4294967296) (x10 % 4294967296) (x11 % 4294967296)).2.2.2.2.2.2.2.1
+         (Gen.Mds12.mds_multiply_freq (x0 / 4294967296) (x1 / 4294967296) (x2 / 4294967296) (x3 / 4294967296) (x4 / 4294967296) (x5 / 4294967296) (x6 / 4294967296) (x7 / 4294967296) (x8 / 4294967296) (x9 / 4294967296) (x10 / 4294967296) (x11 / 4294967296)).2.2.2.2.2.2.2.1,
+       tailRed (Gen.Mds12.mds_multiply_freq (x0 % 4294967296) (x1 % 4294967296) (x2 % 4294967296) (x3 % 4294967296) (x4 % 4294967296) (x5 % 4294967296) (x6 % 4294967296) (x7 % 4294967296) (x8 % 4294967296) (x9 % 4294967296) (x10 % 4294967296) (x11 % 4294967296)).2.2.2.2.2.2.2.2.1
+         (Gen.Mds12.mds_multiply_freq (x0 / 4294967296) (x1 / 4294967296) (x2 / 4294967296) (x3 / 4294967296) (x4 / 4294967296) (x5 / 4294967296) (x6 / 4294967296) (x7 / 4294967296) (x8 / 4294967296) (x9 / 4294967296) (x10 / 4294967296) (x11 / 4294967296)).2.2.2.2.2.2.2.2.1,
+       tailRed (Gen.Mds12.mds_multiply_freq (x0 % 4294967296) (x1 % 4294967296) (x2 % 4294967296) (x3 % 4294967296) (x4 % 4294967296) (x5 % 4294967296) (x6 % 4294967296) (x7 % 4294967296) (x8 % 4294967296) (x9 % 4294967296) (x10 % 4294967296) (x11 % 4294967296)).2.2.2.2.2.2.2.2.2.1
+         (Gen.Mds12.mds_multiply_freq (x0 / 4294967296) (x1 / 4294967296) (x2 / 4294967296) (x3 / 4294967296) (x4 / 4294967296) (x5 / 4294967296) (x6 / 4294967296) (x7 / 4294967296) (x8 / 4294967296) (x9 / 4294967296) (x10 / 4294967296) (x11 / 4294967296)).2.2.2.2.2.2.2.2.2.1,
+       tailRed (Gen.Mds12.mds_multiply_freq (x0 % 4294967296) (x1 % 4294967296) (x2 % 4294967296) (x3 % 4294967296) (x4 % 4294967296) (x5 % 4294967296) (x6 % 4294967296) (x7 % 4294967296) (x8 % 4294967296) (x9 % 4294967296) (x10 % 4294967296) (x11 % 4294967296)).2.2.2.2.2.2.2.2.2.2.1
+         (Gen.Mds12.mds_multiply_freq (x0 / 4294967296) (x1 / 4294967296) (x2 / 4294967296) (x3 / 4294967296) (x4 / 4294967296) (x5 / 4294967296) (x6 / 4294967296) (x7 / 4294967296) (x8 / 4294967296) (x9 / 4294967296) (x10 / 4294967296) (x11 / 4294967296)).2.2.2.2.2.2.2.2.2.2.1,
+       tailRed (Gen.Mds12.mds_multiply_freq (x0 % 4294967296) (x1 % 4294967296) (x2 % 4294967296) (x3 % 4294967296) (x4 % 4294967296) (x5 % 4294967296) (x6 % 4294967296) (x7 % 4294967296) (x8 % 4294967296) (x9 % 4294967296) (x10 % 4294967296) (x11 % 4294967296)).2.2.2.2.2.2.2.2.2.2.2
+         (Gen.Mds12.mds_multiply_freq (x0 / 4294967296) (x1 / 4294967296) (x2 / 4294967296) (x3 / 4294967296) (x4 / 4294967296) (x5 / 4294967296) (x6 / 4294967296) (x7 / 4294967296) (x8 / 4294967296) (x9 / 4294967296) (x10 / 4294967296) (x11 / 4294967296)).2.2.2.2.2.2.2.2.2.2.2)
 
 end WinterProofs.C11.Mds12
